@@ -223,50 +223,192 @@ theorem C11_csv_tie_witness :
     round6 (1 / 128) = 7812 / 1000000 ∧ round6 (3 / 128) = 23438 / 1000000 := by
   constructor <;> decide +kernel
 
+/-! ## NetCDF time axis -/
+
+/-- **NetCDF: the time stamps read back are the ones written.**  `write_times(times, ft, fd)`
+    (`fd` = the date of time `ft`) followed by `read_import_times` gives `fd + (t - ft)` for every
+    `t`, whatever the sign of the times, and the stored axis values are never negative
+    (repaired code, commit 2e78bfd). -/
+theorem C11_netcdf_times (times : List Int) (ft fd : Int) (hne : times ≠ []) :
+    ∃ w, ncWriteTimes times ft fd = some w ∧
+      ncReadTimes w = times.map (fun t => fd + (t - ft)) ∧ ∀ v ∈ w.1, 0 ≤ v := by
+  obtain ⟨m, hm⟩ := minList_some_of_ne times hne
+  have hle := minList_le times m hm
+  unfold ncWriteTimes
+  rw [hm]
+  simp only []
+  by_cases hneg : m < 0
+  · rw [if_pos hneg]
+    refine ⟨_, rfl, ?_, ?_⟩
+    · unfold ncReadTimes
+      simp only [List.map_map]
+      apply List.map_congr_left
+      intro t _
+      simp only [Function.comp]
+      omega
+    · intro v hv
+      simp only [List.mem_map] at hv
+      obtain ⟨t, ht, rfl⟩ := hv
+      have := hle t ht
+      omega
+  · rw [if_neg hneg]
+    refine ⟨_, rfl, ?_, ?_⟩
+    · unfold ncReadTimes
+      apply List.map_congr_left
+      intro t _
+      omega
+    · intro v hv
+      have := hle v hv
+      omega
+
+/-- finding F40 (witness, code before 2e78bfd): with forecast time 3600 and no negative time the
+    axis was labelled one hour late; with a negative time present it was right -/
+theorem C11_netcdf_times_F40_witness :
+    (ncWriteTimesLegacy [0, 3600, 7200] 3600 100000).map ncReadTimes = some [100000, 103600, 107200] ∧
+    (ncWriteTimes [0, 3600, 7200] 3600 100000).map ncReadTimes = some [96400, 100000, 103600] ∧
+    (ncWriteTimesLegacy [-3600, 0, 3600] 3600 100000).map ncReadTimes = some [92800, 96400, 100000] := by
+  decide +kernel
+
+/-! ## parameter files and id mapping -/
+
+/-- **Typed parameter values round-trip through `set`/`get`**: after a successful `set`, `get` with
+    the same arguments returns the value coerced to the element's type (`boolValue` keeps the
+    bool, `intValue` the integer part, `dblValue` the float), and every other parameter id keeps
+    its value under every lookup. -/
+theorem C11_param_roundtrip (c c' : PConf) (gid p : Nat) (a : PArg) (loc model : Option Nat)
+    (h : pset c gid p a loc model = some c') :
+    (∃ old v, pget c gid p loc model = some old ∧ coerce old a = some v ∧
+        pget c' gid p loc model = some v) ∧
+    (∀ gid' p' loc' model', p' ≠ p → pget c' gid' p' loc' model' = pget c gid' p' loc' model') := by
+  induction c generalizing c' with
+  | nil => cases h
+  | cons g rest ih =>
+    simp only [pset] at h
+    by_cases hp : g.passes gid loc model = true
+    · rw [if_pos hp] at h
+      cases hf : findPar p g.pars with
+      | none => rw [hf] at h; cases h
+      | some old =>
+        rw [hf] at h
+        simp only [] at h
+        cases hc : coerce old a with
+        | none => rw [hc] at h; cases h
+        | some v =>
+          rw [hc] at h
+          simp only [Option.some.injEq] at h
+          subst h
+          constructor
+          · refine ⟨old, v, ?_, hc, ?_⟩
+            · simp only [pget, hp, if_true]; exact hf
+            · have hp' : ({ g with pars := setPar p v g.pars } : PGroup).passes gid loc model = true := hp
+              simp only [pget, hp', if_true]
+              exact findPar_setPar_same p v g.pars old hf
+          · intro gid' p' loc' model' hne
+            have hp' : ({ g with pars := setPar p v g.pars } : PGroup).passes gid' loc' model'
+                = g.passes gid' loc' model' := rfl
+            simp only [pget, hp']
+            split
+            · exact findPar_setPar_other p p' hne v g.pars
+            · rfl
+    · rw [if_neg hp] at h
+      cases hr : pset rest gid p a loc model with
+      | none => rw [hr] at h; cases h
+      | some r' =>
+        rw [hr] at h
+        simp only [Option.map_some, Option.some.injEq] at h
+        subst h
+        obtain ⟨⟨old, v, h1, h2, h3⟩, h4⟩ := ih r' hr
+        constructor
+        · refine ⟨old, v, ?_, h2, ?_⟩
+          · simp only [pget, hp]; exact h1
+          · simp only [pget, hp]; exact h3
+        · intro gid' p' loc' model' hne
+          simp only [pget]
+          split
+          · rfl
+          · exact h4 gid' p' loc' model' hne
+
+/-- **Id mapping is one-to-one in both directions** for every accepted rtcDataConfig (the
+    constructor rejects double mappings): the header made from `pi_variable_ids(v)` — with its
+    qualifiers in any order — maps back to `v`. -/
+theorem C11_id_roundtrip (c : DataConfig) (hv : dcValid c = true) (i : Nat) (e : ExtId)
+    (hmem : (i, e) ∈ c) :
+    dcIds c i = some e ∧
+    ∀ h : ExtId, h.key = e.key → dcVariable c h = some i := by
+  induction c with
+  | nil => cases hmem
+  | cons x l ih =>
+    obtain ⟨i0, e0⟩ := x
+    simp only [dcValid, Bool.and_eq_true, Bool.not_eq_true'] at hv
+    obtain ⟨⟨hv1, hv2⟩, hv3⟩ := hv
+    rcases List.mem_cons.1 hmem with heq | hin
+    · cases heq
+      constructor
+      · simp [dcIds, List.find?]
+      · intro h hk
+        simp [dcVariable, List.find?, hk]
+    · have hne1 : (i0 == i) = false := by
+        rw [List.any_eq_false] at hv1
+        have := hv1 (i, e) hin
+        simp only [Bool.not_eq_true] at this
+        rw [beq_eq_false_iff_ne] at this ⊢
+        exact fun h => this h.symm
+      have hne2 : ∀ h : ExtId, h.key = e.key → (e0.key == h.key) = false := by
+        intro h hk
+        rw [List.any_eq_false] at hv2
+        have := hv2 (i, e) hin
+        simp only [Bool.not_eq_true] at this
+        rw [beq_eq_false_iff_ne] at this ⊢
+        rw [hk]
+        exact fun h' => this h'.symm
+      obtain ⟨ih1, ih2⟩ := ih hv3 hin
+      constructor
+      · simp only [dcIds, List.find?, hne1]
+        exact ih1
+      · intro h hk
+        simp only [dcVariable, List.find?, hne2 h hk]
+        exact ih2 h hk
+
 /-! ## resize -/
 
-/-- windows of a resize sequence: on the grid of the series, non-empty, and starting at most one
-    step after the current end (the complement is finding F26) -/
+/-- windows of a resize sequence: on the grid of the series and non-empty (they may lie anywhere
+    relative to the current range, also entirely before or after it) -/
 def OkSeq (d : Int) : Int → Int → List (Int × Int) → Prop
   | _, _, [] => True
   | start, stop, w :: ws =>
     (∃ a : Int, w.1 = start + a * d) ∧ (∃ b : Int, w.2 = stop + b * d) ∧ w.1 ≤ w.2 ∧
-      w.1 ≤ stop + d ∧ OkSeq d w.1 w.2 ws
+      OkSeq d w.1 w.2 ws
 
-/-- every series has one value per stamp of `[start, stop]` -/
+/-- every series has one value per stamp of `[start, stop]`, and `times` lists these stamps -/
 def Aligned (d : Int) (s : Store) : Prop :=
   s.dt = some d ∧ ∃ n : Nat, 1 ≤ n ∧ s.stop = s.start + ((n : Int) - 1) * d ∧
+    s.times = gridTimes s.start d n ∧
     ∀ m v vals, s.get m v = some vals → vals.length = n
 
 theorem resize_step (d : Int) (hd : 0 < d) (s : Store) (hA : Aligned d s) (ns ne : Int)
-    (a b : Int) (ha : ns = s.start + a * d) (hb : ne = s.stop + b * d) (hle : ns ≤ ne)
-    (hF26 : ns ≤ s.stop + d) :
+    (a b : Int) (ha : ns = s.start + a * d) (hb : ne = s.stop + b * d) (hle : ns ≤ ne) :
     ∃ s', resize ns ne s = some s' ∧ s'.start = ns ∧ s'.stop = ne ∧ Aligned d s' ∧
       ∀ m v vals, s.get m v = some vals →
         ∃ vals', s'.get m v = some vals' ∧
           ∀ t, valueAt ns d vals' t
             = if ns ≤ t ∧ t ≤ ne then valueAt s.start d vals t else XVal.nan := by
-  obtain ⟨hdt, n, hn, hstop, hlen⟩ := hA
+  obtain ⟨hdt, n, hn, hstop, htimes, hlen⟩ := hA
   have hd0 : d ≠ 0 := Int.ne_of_gt hd
   have ea : roundDiv (ns - s.start) d = a := by
     rw [ha, show s.start + a * d - s.start = a * d by ring, roundDiv_mul a d hd0]
-  have eb : roundDiv (ne - s.stop) d = b := by
-    rw [hb, show s.stop + b * d - s.stop = b * d by ring, roundDiv_mul b d hd0]
-  -- bounds on a, b in steps
-  have han : a ≤ n := by
-    have : a * d ≤ (n : Int) * d := by
-      have : s.start + a * d ≤ s.start + ((n : Int) - 1) * d + d := by
-        rw [← ha, ← hstop]; exact hF26
-      nlinarith
-    exact le_of_mul_le_mul_right this hd
   have hnab : 1 ≤ (n : Int) - a + b := by
     have h : s.start + a * d ≤ s.start + ((n : Int) - 1) * d + b * d := by
       rw [← ha, ← hstop, ← hb]; exact hle
     have : 0 ≤ ((n : Int) - 1 - a + b) * d := by nlinarith
     have := nonneg_of_mul_nonneg_left this hd
     omega
+  have et : roundDiv (ne - ns) d + 1 = (n : Int) - a + b := by
+    rw [hb, hstop, ha, show s.start + ((n : Int) - 1) * d + b * d - (s.start + a * d)
+        = ((n : Int) - 1 + b - a) * d by ring, roundDiv_mul _ d hd0]
+    ring
   let s' : Store := { s with start := ns, stop := ne,
-                             slots := mapVals (resize1 d s.start s.stop ns ne) s.slots }
+                             times := gridTimes ns d (roundDiv (ne - ns) d + 1).toNat,
+                             slots := mapVals (resize1 d s.start ns ne) s.slots }
   have hres : resize ns ne s = some s' := by
     unfold resize
     split
@@ -277,18 +419,36 @@ theorem resize_step (d : Int) (hd : 0 < d) (s : Store) (hA : Aligned d s) (ns ne
     · rename_i h
       rw [hdt] at h
       cases h
-  have hget : ∀ m v, s'.get m v = (s.get m v).map (resize1 d s.start s.stop ns ne) :=
+  have hget : ∀ m v, s'.get m v = (s.get m v).map (resize1 d s.start ns ne) :=
     fun m v => get_mapVals _ s _ m v rfl s' rfl
-  have hr1 : ∀ vals : List XVal, resize1 d s.start s.stop ns ne vals
-      = shiftEnd b (shiftStart a vals) := by
+  -- one series: values by index, and the new length
+  have hr1 : ∀ (vals : List XVal) (i : Int), getZ (resize1 d s.start ns ne vals) i
+      = if 0 ≤ i ∧ i < (n : Int) - a + b then getZ vals (i + a) else XVal.nan := by
+    intro vals i
+    unfold resize1
+    simp only [ea, et]
+    rw [getZ_shiftEnd, getZ_shiftStart]
+    have : ((shiftStart a vals).length : Int) + ((n : Int) - a + b - ((shiftStart a vals).length : Int))
+        = (n : Int) - a + b := by ring
+    rw [this]
+    by_cases h1 : i < (n : Int) - a + b
+    · by_cases h0 : 0 ≤ i
+      · simp [h0, h1]
+      · simp [h0, h1]
+    · simp [h1]
+  have hr2 : ∀ (vals : List XVal), ((resize1 d s.start ns ne vals).length : Int) = (n : Int) - a + b := by
     intro vals
     unfold resize1
-    rw [ea, eb]
+    simp only [ea, et]
+    rw [shiftEnd_length _ _ (by omega)]
+    ring
   refine ⟨s', hres, rfl, rfl, ?_, ?_⟩
-  · refine ⟨hdt, ((n : Int) - a + b).toNat, by omega, ?_, ?_⟩
+  · refine ⟨hdt, ((n : Int) - a + b).toNat, by omega, ?_, ?_, ?_⟩
     · show ne = ns + ((((n : Int) - a + b).toNat : Int) - 1) * d
       rw [Int.toNat_of_nonneg (by omega), hb, hstop, ha]
       ring
+    · show gridTimes ns d (roundDiv (ne - ns) d + 1).toNat = gridTimes ns d ((n : Int) - a + b).toNat
+      rw [et]
     · intro m v vals' hv
       rw [hget m v] at hv
       cases hsv : s.get m v with
@@ -296,16 +456,13 @@ theorem resize_step (d : Int) (hd : 0 < d) (s : Store) (hA : Aligned d s) (ns ne
       | some vals =>
         rw [hsv] at hv
         simp only [Option.map_some, Option.some.injEq] at hv
-        have hl := hlen m v vals hsv
-        rw [← hv, hr1]
-        have := resizeCore_length a b vals (by rw [hl]; exact han) (by rw [hl]; omega)
-        rw [hl] at this
+        rw [← hv]
+        have := hr2 vals
         omega
   · intro m v vals hsv
-    refine ⟨resize1 d s.start s.stop ns ne vals, by rw [hget m v, hsv]; rfl, ?_⟩
+    refine ⟨resize1 d s.start ns ne vals, by rw [hget m v, hsv]; rfl, ?_⟩
     intro t
     have hl := hlen m v vals hsv
-    rw [hr1]
     unfold valueAt
     have hmod : (t - ns) % d = (t - s.start) % d := by
       rw [ha, show t - (s.start + a * d) = (t - s.start) + d * (-a) by ring, Int.add_mul_emod_self_left]
@@ -320,7 +477,7 @@ theorem resize_step (d : Int) (hd : 0 < d) (s : Store) (hA : Aligned d s) (ns ne
       have e2 : (t - ns) / d = q - a := by
         rw [ha, show t - (s.start + a * d) = d * (q - a) by rw [mul_sub, ← hq]; ring,
           Int.mul_ediv_cancel_left _ hd0]
-      rw [e1, e2, getZ_resizeCore a b vals (by rw [hl]; exact han), hl]
+      rw [e1, e2, hr1]
       have ht : t = s.start + q * d := by linarith [hq, mul_comm d q]
       have c1 : (0 ≤ q - a) ↔ ns ≤ t := by
         rw [ha, ht]
@@ -346,9 +503,11 @@ theorem resize_step (d : Int) (hd : 0 < d) (s : Store) (hA : Aligned d s) (ns ne
       simp
 
 /-- **Resizing keeps the values at the surviving time stamps** and gives NaN on new ones, for
-    *every sequence* of resizes of an equidistant series: after the windows `ws`, the value at
-    stamp `t` is the original value if `t` lies in every window, and NaN otherwise (in particular
-    on every stamp that was outside the original range, where `valueAt` of the original is NaN). -/
+    *every sequence* of resizes of an equidistant series (windows anywhere on the grid, also
+    disjoint from the current range): after the windows `ws`, the value at stamp `t` is the original
+    value if `t` lies in every window, and NaN otherwise (in particular on every stamp that was
+    outside the original range, where `valueAt` of the original is NaN); the object stays aligned
+    (one value per stamp, `times` = the stamps of the last window). -/
 theorem C11_resize_keeps_values (d : Int) (hd : 0 < d) (ws : List (Int × Int)) :
     ∀ (s : Store), Aligned d s → OkSeq d s.start s.stop ws →
     ∃ s', resizeSeq ws s = some s' ∧ Aligned d s' ∧
@@ -362,8 +521,8 @@ theorem C11_resize_keeps_values (d : Int) (hd : 0 < d) (ws : List (Int × Int)) 
     exact ⟨s, rfl, hA, fun m v vals h => ⟨vals, h, fun t => by simp⟩⟩
   | cons w ws ih =>
     intro s hA hok
-    obtain ⟨⟨a, ha⟩, ⟨b, hb⟩, hle, hF, hrest⟩ := hok
-    obtain ⟨s1, hr, hs1, he1, hA1, hv1⟩ := resize_step d hd s hA w.1 w.2 a b ha hb hle hF
+    obtain ⟨⟨a, ha⟩, ⟨b, hb⟩, hle, hrest⟩ := hok
+    obtain ⟨s1, hr, hs1, he1, hA1, hv1⟩ := resize_step d hd s hA w.1 w.2 a b ha hb hle
     obtain ⟨s2, hr2, hA2, hv2⟩ := ih s1 hA1 (by rw [hs1, he1]; exact hrest)
     refine ⟨s2, by simp only [resizeSeq, hr]; exact hr2, hA2, ?_⟩
     intro m v vals hsv
@@ -385,12 +544,15 @@ theorem C11_resize_keeps_values (d : Int) (hd : 0 < d) (ws : List (Int × Int)) 
       intro h
       exact hall (fun w' hw' => h w' (List.mem_cons_of_mem _ hw'))
 
-/-- finding F26 (machine-checked witness): a window that starts more than one step after the old
-    end — old stamps 0..4 h, new window 7..11 h — gives 7 values instead of 5 -/
+/-- finding F26 (machine-checked witness, code before f5e4157): a window that starts more than one
+    step after the old end — old stamps 0..4 h, new window 7..11 h — gave 7 values instead of 5;
+    the repaired code gives 5 -/
 theorem C11_resize_F26_witness :
-    (resize1 3600 0 14400 25200 39600
-      [XVal.fin 10, XVal.fin 11, XVal.fin 12, XVal.fin 13, XVal.fin 14]).length = 7 := by
-  decide +kernel
+    (resize1Legacy 3600 0 14400 25200 39600
+      [XVal.fin 10, XVal.fin 11, XVal.fin 12, XVal.fin 13, XVal.fin 14]).length = 7 ∧
+    (resize1 3600 0 25200 39600
+      [XVal.fin 10, XVal.fin 11, XVal.fin 12, XVal.fin 13, XVal.fin 14]).length = 5 := by
+  constructor <;> decide +kernel
 
 /-! ## non-vacuity -/
 
@@ -415,11 +577,12 @@ example : WF false exStore := by
 example : (write id false exStore).bind (read false) = some exStore := by decide +kernel
 
 
-example : OkSeq 3600 0 14400 [(3600, 18000), (-7200, 7200)] := by
-  refine ⟨⟨1, by norm_num⟩, ⟨1, by norm_num⟩, by norm_num, by norm_num,
-    ⟨-3, by norm_num⟩, ⟨-3, by norm_num⟩, by norm_num, by norm_num, trivial⟩
+example : OkSeq 3600 0 14400 [(3600, 18000), (-7200, 7200), (25200, 39600)] := by
+  refine ⟨⟨1, by norm_num⟩, ⟨1, by norm_num⟩, by norm_num,
+    ⟨-3, by norm_num⟩, ⟨-3, by norm_num⟩, by norm_num,
+    ⟨9, by norm_num⟩, ⟨9, by norm_num⟩, by norm_num, trivial⟩
 
-example : valueAt 3600 3600 (resize1 3600 0 14400 3600 18000
+example : valueAt 3600 3600 (resize1 3600 0 3600 18000
     [XVal.fin 10, XVal.fin 11, XVal.fin 12, XVal.fin 13, XVal.fin 14]) 7200 = XVal.fin 12 := by
   decide +kernel
 
